@@ -143,6 +143,37 @@ func genMonitor(out *Output, rng *Rng) {
 			checkResultSet(out, "ocsp "+cc.File, rs, on, metas)
 		}
 	}
+	// hostile / mutated objects the parser accepts (shared with C02's engine): the result set must still be complete
+	nMut := 300
+	if tier() == "thorough" {
+		nMut = 5000
+	}
+	cn, _, _, metas := kindNames(g)
+	mutLinted := 0
+	for i := 0; i < nMut; i++ {
+		cc := corpus.Certs[rng.Intn(len(corpus.Certs))]
+		der, what, err := mutateExtensions(cc.DER, rng)
+		if err != nil || what == "" {
+			continue
+		}
+		c, err := safeParseCert(der)
+		if err != nil {
+			continue
+		}
+		mutLinted++
+		var rs *zlint.ResultSet
+		var pv interface{}
+		func() {
+			defer func() { pv = recover() }()
+			rs = zlint.LintCertificateEx(c, g)
+		}()
+		if pv != nil {
+			out.Violate("C01|panic-escaped:cert-mutant", fmt.Sprintf("LintCertificateEx panicked on a mutant of %s (%s): %v", cc.File, what, pv), map[string]interface{}{"der": hexs(der)}, nil, nil)
+			continue
+		}
+		checkResultSet(out, "mutant of "+cc.File+" ("+what+")", rs, cn, metas)
+	}
+	out.Stats["mutants_linted"] = mutLinted
 	// nil inputs
 	if zlint.LintCertificateEx(nil, g) != nil || zlint.LintRevocationListEx(nil, g) != nil || zlint.LintOcspResponseEx(nil, g) != nil {
 		out.Violate("C01|nil-input", "nil object did not yield a nil result set", nil, nil, nil)
